@@ -313,3 +313,37 @@ Definition stable_lim_ok (h : list (event * dropped)) (rereads : list (snap * dr
   forallb (fun r => forallb (fun x => match fst x with
                                       | EvOnEnd _ sn => snap_eqb sn (fst r) && dropped_eqb (snd x) (snd r)
                                       | _ => true end) h) rereads.
+
+(** * The status register: Ok is final, Error overrides Unset and an earlier Error, Unset never changes anything.
+    [ws] = the SetStatus calls made on a recording span, in order ([SError m] = call [m] with code Error);
+    the status read after the i-th call is determined by the calls so far. *)
+Inductive scode := SUnset | SError (m : nat) | SOk.
+
+Definition scode_eqb (a b : scode) : bool :=
+  match a, b with
+  | SUnset, SUnset | SOk, SOk => true
+  | SError m, SError n => m =? n
+  | _, _ => false
+  end.
+Definition is_sok (c : scode) : bool := match c with SOk => true | _ => false end.
+
+Fixpoint last_error (ws : list scode) (acc : scode) : scode :=
+  match ws with
+  | [] => acc
+  | SError m :: r => last_error r (SError m)
+  | _ :: r => last_error r acc
+  end.
+
+Definition status_after (ws : list scode) : scode :=
+  if existsb is_sok ws then SOk else last_error ws SUnset.
+
+Fixpoint scodes_eqb (a b : list scode) : bool :=
+  match a, b with
+  | [], [] => true
+  | x :: a', y :: b' => scode_eqb x y && scodes_eqb a' b'
+  | _, _ => false
+  end.
+
+(** [reads] = the status read after each call. *)
+Definition status_spec (ws reads : list scode) : bool :=
+  scodes_eqb reads (map (fun i => status_after (firstn (S i) ws)) (seq 0 (length ws))).
